@@ -213,3 +213,68 @@ Example ex_near_miss :
   wf (TList [TLit (VSym sym_unquote); TLit (VSym 10); TLit (VSym 10)]) = true
   /\ wf (TList [TLit (VSym sym_unquote); TLit (VSym 10)]) = false.
 Proof. vm_compute. split; reflexivity. Qed.
+
+(* ---------------------------------------------------------------- the code generator and macro calls
+   Model/MacroGen.v mirrors Generate / GenerateCallBySymbol (macro branch, self tail call, call),
+   GenerateBegin, GenerateLet, GenerateNewScope, GenerateForLoop, GenerateBreak, GenerateContinue,
+   GenerateCond, GenerateDef, projected onto the scope and control instructions. *)
+Require Import ZV.Model.MacroGen ZV.Proofs.MacroGenProofs.
+
+(* the code of a macro call is the code of its expansion compiled in the CALLER's generator
+   context c (scope count, enclosing loops, Tail flag, function name) *)
+Theorem macro_call_in_context : forall expander special n c s args ex e,
+    Z.eqb s sym_begin = false -> (Z.eqb s sym_let || Z.eqb s sym_letseq) = false ->
+    Z.eqb s sym_newscope = false -> Z.eqb s sym_for = false -> Z.eqb s sym_break = false ->
+    Z.eqb s sym_continue = false -> Z.eqb s sym_cond = false ->
+    (Z.eqb s sym_def || Z.eqb s sym_set) = false -> special s = false ->
+    expander s = Some ex -> ex args = Some e ->
+    gen expander special (S n) c (VList (VSym s :: args)) = gen expander special n c e.
+Proof. exact MacroGenProofs.macro_call_in_context. Qed.
+Print Assumptions macro_call_in_context.
+
+(* ALL forms of the fragment, macro calls nested to any depth, any macro table, any context whose
+   loops lie below its scope depth: the code restores scope depth and loop context, and every
+   Break / Continue / self tail call in it -- whether written by hand or emitted from an expansion --
+   pops exactly the scopes opened above its target *)
+Theorem compiled_scopes_exact : forall expander special n c f code,
+    ctx_ok c = true -> gen expander special n c f = Some code ->
+    chk (g_scopes c, g_loops c) code = Some (g_scopes c, g_loops c).
+Proof. exact gen_exact. Qed.
+Print Assumptions compiled_scopes_exact.
+
+Theorem fn_body_scopes_exact : forall expander special n fn nargs body code,
+    gen_begin (gen expander special n) (fn_ctx fn nargs) body = Some code ->
+    chk (0%nat, []) code = Some (0%nat, []).
+Proof. exact fn_body_exact. Qed.
+Print Assumptions fn_body_scopes_exact.
+
+Theorem expansion_break_pops : forall expander special n c s args ex d L,
+    Z.eqb s sym_begin = false -> (Z.eqb s sym_let || Z.eqb s sym_letseq) = false ->
+    Z.eqb s sym_newscope = false -> Z.eqb s sym_for = false -> Z.eqb s sym_break = false ->
+    Z.eqb s sym_continue = false -> Z.eqb s sym_cond = false ->
+    (Z.eqb s sym_def || Z.eqb s sym_set) = false -> special s = false ->
+    expander s = Some ex -> ex args = Some (VList [VSym sym_break]) ->
+    g_loops c = d :: L ->
+    gen expander special (S (S n)) c (VList (VSym s :: args)) = Some [PBreak (g_scopes c - S d)].
+Proof. exact MacroGenProofs.expansion_break_pops. Qed.
+Print Assumptions expansion_break_pops.
+
+(* non-vacuity: (defmac brk0 [] ^(break)) (defmac wrap1 [x] ^(let [t 1] ~x));
+   (defn f [a b] (for [i t u] (wrap1 (wrap1 (brk0)))) (f a b))
+   -> LoopStart AddScope AddScope AddScope Break{2} RemoveScope RemoveScope ClearStackmark RemoveScope, tail call *)
+Example ex_macro_break :
+  gen_fn 50
+    [(100, ([], VList [VSym sym_break]));
+     (101, ([102], VList [VSym sym_let; VArr [VSym 103; VInt 1]; VList [VSym sym_unquote; VSym 102]]))]
+    (fun _ => false) 200 2
+    [VList [VSym sym_for; VArr [VInt 0; VInt 1; VInt 2];
+            VList [VSym 101; VList [VSym 101; VList [VSym 100]]]];
+     VList [VSym 200; VSym 104; VSym 105]]
+  = Some [PLoop; PAdd; PAdd; PAdd; PBreak 2; PRemove; PRemove; PLoopEnd; PRemove; PTail 1 2].
+Proof. vm_compute. reflexivity. Qed.
+
+(* the checker is not trivially satisfied: a Break that pops one scope too few is rejected *)
+Example ex_chk_rejects :
+  chk (0%nat, []) [PLoop; PAdd; PAdd; PBreak 0; PRemove; PLoopEnd; PRemove] = None
+  /\ chk (0%nat, []) [PLoop; PAdd; PAdd; PBreak 1; PRemove; PLoopEnd; PRemove] = Some (0%nat, []).
+Proof. vm_compute. split; reflexivity. Qed.
